@@ -104,6 +104,11 @@ func genCacheCase(t *rapid.T) CacheCase {
 		c.Links = map[string]string{"ln.txt": rapid.SampledFrom([]string{"f2.txt", "sub/f3.txt", "g1.c"}).Draw(t, "link_target")}
 		k := rapid.IntRange(0, n-1).Draw(t, "link_task")
 		c.Tasks[k].Files = append(c.Tasks[k].Files, "ln.txt")
+		if rapid.Bool().Draw(t, "second_link") {
+			// a second one (current -> release-a, standby -> release-b): links can be repointed
+			c.Links["ln2.txt"] = rapid.SampledFrom([]string{"f2.txt", "sub/f3.txt", "g1.c", "f1.txt"}).Draw(t, "link2_target")
+			c.Tasks[k].Files = append(c.Tasks[k].Files, "ln2.txt")
+		}
 	}
 	// with probability 1/4 a directory is reachable through a symbolic link: the files below the link
 	// have matching relative paths of their own (the link's target is hidden, so only the link's path counts)
@@ -124,7 +129,18 @@ func genCacheCase(t *rapid.T) CacheCase {
 	}
 	c.Dir = genDir(t)
 	c.Junk = rapid.IntRange(0, 5).Draw(t, "junk_in_cache_dir") == 0
-	names := taskNames[:n]
+	names := append([]string(nil), taskNames[:n]...)
+	if rapid.IntRange(0, 3).Draw(t, "late_task") == 0 {
+		// a task that is added to the spokfile in the course of the history
+		z := TaskSpec{Name: "Z", NCmds: 1}
+		if rapid.Bool().Draw(t, "late_glob") {
+			z.Globs = []string{rapid.SampledFrom(globPats).Draw(t, "late_pat")}
+		} else {
+			z.Files = []string{rapid.SampledFrom(literals).Draw(t, "late_file")}
+		}
+		c.Late = []TaskSpec{z}
+		names = append(names, "Z")
+	}
 	nsteps := rapid.IntRange(2, 14).Draw(t, "nsteps")
 	if ev.Thorough() {
 		nsteps = rapid.IntRange(2, 30).Draw(t, "nsteps2")
@@ -147,6 +163,15 @@ func genCacheCase(t *rapid.T) CacheCase {
 			}
 		case k < 12:
 			st = Step{Op: "rmcache", Whole: rapid.Bool().Draw(t, "whole")}
+		case k < 14 && len(c.Late) > 0:
+			st = Step{Op: "grow"}
+		case k < 13:
+			if _, two := c.Links["ln2.txt"]; two && rapid.Bool().Draw(t, "swap_links") {
+				st = Step{Op: "swap", File: "ln.txt", File2: "ln2.txt"}
+			} else {
+				pair := rapid.Permutation([]string{"f1.txt", "f2.txt", "extra.txt", "g1.c", "g2.c", "n1.txt"}).Draw(t, "swap_pair")
+				st = Step{Op: "swap", File: pair[0], File2: pair[1]}
+			}
 		default:
 			st = Step{Op: "run"}
 			perm := rapid.Permutation(names).Draw(t, "order")
@@ -478,6 +503,24 @@ func templateCases() []CacheCase {
 		out = append(out, CacheCase{Tasks: linked, Init: map[string]string{"a.txt": "0", "b.txt": "0"}, Links: map[string]string{"ln.txt": "a.txt"}, Steps: []Step{
 			run([]string{"A", "B"}, false, nil), {Op: "write", File: "a.txt", Content: "1"}, fin, fin, {Op: "write", File: "a.txt", Content: "0"}, fin}})
 	}
+	// two dependencies that are links exchange their targets (the switch-over of current and standby);
+	// two regular files exchange their names
+	two := []TaskSpec{{Name: "A", Files: []string{"ln.txt", "ln2.txt"}, NCmds: 1}, {Name: "B", Globs: []string{"l*.txt"}, NCmds: 1}}
+	plain := []TaskSpec{{Name: "A", Files: []string{"a.txt", "b.txt"}, NCmds: 1}, {Name: "B", Globs: []string{"*.txt"}, NCmds: 1}}
+	for _, fin := range final {
+		out = append(out, CacheCase{Tasks: two, Init: map[string]string{"a.txt": "0", "b.txt": "1"}, Links: map[string]string{"ln.txt": "a.txt", "ln2.txt": "b.txt"}, Steps: []Step{
+			run([]string{"A", "B"}, false, nil), {Op: "swap", File: "ln.txt", File2: "ln2.txt"}, fin, fin, {Op: "swap", File: "ln.txt", File2: "ln2.txt"}, fin}})
+		out = append(out, CacheCase{Tasks: plain, Init: map[string]string{"a.txt": "0", "b.txt": "1"}, Steps: []Step{
+			run([]string{"A", "B"}, false, nil), {Op: "swap", File: "a.txt", File2: "b.txt"}, fin, fin, {Op: "swap", File: "a.txt", File2: "b.txt"}, fin}})
+	}
+	// the spokfile gains a task between runs; only the new task is asked for; then all of them
+	old := []TaskSpec{{Name: "A", Files: []string{"a.txt"}, NCmds: 1}, {Name: "B", Globs: []string{"*.txt"}, NCmds: 1}}
+	for _, z := range []TaskSpec{{Name: "Z", Files: []string{"b.txt"}, NCmds: 1}, {Name: "Z", NCmds: 1}, {Name: "Z", Globs: []string{"*.txt"}, Deps: []string{"A"}, NCmds: 1}} {
+		for _, fin := range final {
+			out = append(out, CacheCase{Tasks: old, Late: []TaskSpec{z}, Init: map[string]string{"a.txt": "0", "b.txt": "1"}, Steps: []Step{
+				run([]string{"A", "B"}, false, nil), {Op: "grow"}, run([]string{"Z"}, false, nil), fin, run([]string{"A", "B", "Z"}, false, nil), fin}})
+		}
+	}
 	return out
 }
 
@@ -561,7 +604,7 @@ func TestReplay(t *testing.T) {
 			t.Fatal(err)
 		}
 		f = execGraph(nil, root, c)
-	case "glob":
+	case "glob", "unpriv-glob":
 		var c GlobCase
 		if err := json.Unmarshal(v.Case, &c); err != nil {
 			t.Fatal(err)
